@@ -186,3 +186,133 @@ Proof.
   destruct L as [[s v] r]. simpl in *. subst s r. rewrite Reqb'_refl in H1.
   change (nz RN 1 = nz RN 0) in H1. rewrite nz1, nz0 in H1. discriminate.
 Qed.
+
+Theorem spike_attr_is_output n kw x n' z :
+  NIs n -> neuron_step RN n kw x = Ok (n', z) -> neuron_spike RN n' = z /\ NIs n'.
+Proof. apply Hspk. Qed.
+
+(* ---------- Biclique built-in combine modes, element by element (real numbers) ---------- *)
+Lemma map2_length {A B C} (f : A -> B -> C) a b : length (map2 f a b) = Nat.min (length a) (length b).
+Proof. revert b. induction a as [|x a IH]; intros [|y b]; simpl; auto. Qed.
+Lemma nth_map2 {A} (f : A -> A -> A) a b i d :
+  (i < length a)%nat -> (i < length b)%nat -> nth i (map2 f a b) d = f (nth i a d) (nth i b d).
+Proof.
+  revert b i. induction a as [|x a IH]; intros [|y b] [|i]; simpl; intros; try lia; auto.
+  apply IH; lia.
+Qed.
+Lemma fold_map2_nth (op : R -> R -> R) (rest : list (tensor RN)) : forall (a0 : list R) n i,
+  length a0 = n -> Forall (fun t : tensor RN => length (tel t) = n) rest -> (i < n)%nat ->
+  length (fold_left (fun a (t : tensor RN) => map2 op a (tel t)) rest a0) = n /\
+  nth i (fold_left (fun a (t : tensor RN) => map2 op a (tel t)) rest a0) 0 =
+  fold_left op (map (fun t : tensor RN => nth i (tel t) 0) rest) (nth i a0 0).
+Proof.
+  induction rest as [|t rest IH]; intros a0 n i Ha Hr Hi; simpl; auto.
+  inversion Hr as [|? ? H1 H2]; subst.
+  destruct (IH (map2 op a0 (tel t)) (length a0) i) as [L E]; auto.
+  { rewrite map2_length. cbn [T RN] in *. rewrite H1. apply Nat.min_id. }
+  split; auto. rewrite E. f_equal. apply nth_map2; cbn [T RN] in *; lia.
+Qed.
+Lemma fold_left_plus_tsum l a : fold_left Rplus l a = a + tsum RN l.
+Proof.
+  revert a. induction l as [|x l IH]; intros a; simpl.
+  - rn_simpl. lra.
+  - rewrite IH. rn_simpl. lra.
+Qed.
+Fixpoint tprod (l : list R) : R := match l with [] => 1 | x :: t => x * tprod t end.
+Lemma fold_left_mult_tprod l a : fold_left Rmult l a = a * tprod l.
+Proof.
+  revert a. induction l as [|x l IH]; intros a; simpl.
+  - lra.
+  - rewrite IH. ring.
+Qed.
+
+Definition column (i : nat) (ts : list (Z * tensor RN)) : list R :=
+  map (fun p : Z * tensor RN => nth i (tel (snd p)) 0) ts.
+
+(* combine = "sum" / "mean" / "prod": every element of the drive is the sum / mean / product, over the connections
+   present in the inputs, of that element of their (transformed) outputs *)
+Theorem combine_sum_mean_prod_pointwise m ts t n i :
+  combine_builtin RN m ts = Ok t ->
+  Forall (fun p : Z * tensor RN => length (tel (snd p)) = n) ts -> (i < n)%nat ->
+  match m with
+  | CSum => nth i (@tel RN t) 0 = tsum RN (column i ts)
+  | CMean => nth i (@tel RN t) 0 = tsum RN (column i ts) / IZR (Z.of_nat (length ts))
+  | CProd => nth i (@tel RN t) 0 = tprod (column i ts)
+  | _ => True
+  end.
+Proof.
+  unfold combine_builtin, column. intros H Hl Hi.
+  destruct ts as [|[k0 t0] rest]; simpl in H; [discriminate|].
+  destruct (forallb _ (map snd rest)); [|discriminate].
+  pose proof (Forall_inv Hl) as H1. pose proof (Forall_inv_tail Hl) as H2. simpl in H1.
+  assert (Hr : Forall (fun t : tensor RN => length (tel t) = n) (map snd rest)).
+  { rewrite Forall_map. exact H2. }
+  destruct m; inversion H; subst t; clear H; simpl; auto.
+  - destruct (fold_map2_nth Rplus (map snd rest) (tel t0) n i H1 Hr Hi) as [_ E].
+    rn_simpl. rewrite E, fold_left_plus_tsum, map_map. reflexivity.
+  - destruct (fold_map2_nth Rplus (map snd rest) (tel t0) n i H1 Hr Hi) as [L E].
+    rn_simpl.
+    rewrite (nth_indep _ 0 (0 / IZR (Z.of_nat (S (length (map snd rest)))))) by (rewrite map_length, L; exact Hi).
+    change (0 / IZR (Z.of_nat (S (length (map snd rest))))) with
+      ((fun s => s / IZR (Z.of_nat (S (length (map snd rest))))) 0).
+    rewrite map_nth. rewrite E, fold_left_plus_tsum, !map_map, map_length. reflexivity.
+  - destruct (fold_map2_nth Rmult (map snd rest) (tel t0) n i H1 Hr Hi) as [_ E].
+    rn_simpl. rewrite E, fold_left_mult_tprod, map_map. reflexivity.
+Qed.
+
+Lemma fold_min_aux (l : list R) : forall a v : R, v = fold_left (tmin RN) l a ->
+  (v = a \/ In v l) /\ v <= a /\ Forall (fun x => v <= x) l.
+Proof.
+  induction l as [|x l IH]; intros a v Hv; simpl in Hv.
+  - subst. repeat split; auto; lra.
+  - apply IH in Hv. destruct Hv as (M & B & F).
+    assert (T : (tmin RN a x = a \/ tmin RN a x = x) /\ tmin RN a x <= a /\ tmin RN a x <= x).
+    { unfold tmin. rn_simpl. destruct (Rltb'_spec x a); repeat split; auto; lra. }
+    destruct T as (T1 & T2 & T3). repeat split.
+    + destruct M as [M|M]; [rewrite M; destruct T1 as [T1|T1]; rewrite T1; simpl; auto|simpl; auto].
+    + lra.
+    + constructor; [lra|exact F].
+Qed.
+Lemma fold_min l a : let v := fold_left (tmin RN) l a in (v = a \/ In v l) /\ v <= a /\ Forall (fun x => v <= x) l.
+Proof. apply fold_min_aux. reflexivity. Qed.
+Lemma fold_max_aux (l : list R) : forall a v : R, v = fold_left (tmax RN) l a ->
+  (v = a \/ In v l) /\ a <= v /\ Forall (fun x => x <= v) l.
+Proof.
+  induction l as [|x l IH]; intros a v Hv; simpl in Hv.
+  - subst. repeat split; auto; lra.
+  - apply IH in Hv. destruct Hv as (M & B & F).
+    assert (T : (tmax RN a x = a \/ tmax RN a x = x) /\ a <= tmax RN a x /\ x <= tmax RN a x).
+    { unfold tmax. rn_simpl. destruct (Rltb'_spec a x); repeat split; auto; lra. }
+    destruct T as (T1 & T2 & T3). repeat split.
+    + destruct M as [M|M]; [rewrite M; destruct T1 as [T1|T1]; rewrite T1; simpl; auto|simpl; auto].
+    + lra.
+    + constructor; [lra|exact F].
+Qed.
+Lemma fold_max l a : let v := fold_left (tmax RN) l a in (v = a \/ In v l) /\ a <= v /\ Forall (fun x => x <= v) l.
+Proof. apply fold_max_aux. reflexivity. Qed.
+(* combine = "min" / "max": every element of the drive is the least / greatest of that element over the connections *)
+Theorem combine_min_max_pointwise m ts t n i :
+  combine_builtin RN m ts = Ok t ->
+  Forall (fun p : Z * tensor RN => length (tel (snd p)) = n) ts -> (i < n)%nat ->
+  match m with
+  | CMin => In (nth i (@tel RN t) 0) (column i ts) /\ Forall (fun x => nth i (@tel RN t) 0 <= x) (column i ts)
+  | CMax => In (nth i (@tel RN t) 0) (column i ts) /\ Forall (fun x => x <= nth i (@tel RN t) 0) (column i ts)
+  | _ => True
+  end.
+Proof.
+  unfold combine_builtin, column. intros H Hl Hi.
+  destruct ts as [|[k0 t0] rest]; simpl in H; [discriminate|].
+  destruct (forallb _ (map snd rest)); [|discriminate].
+  pose proof (Forall_inv Hl) as H1. pose proof (Forall_inv_tail Hl) as H2. simpl in H1.
+  assert (Hr : Forall (fun t : tensor RN => length (tel t) = n) (map snd rest)).
+  { rewrite Forall_map. exact H2. }
+  destruct m; inversion H; subst t; clear H; simpl; auto.
+  - destruct (fold_map2_nth (tmin RN) (map snd rest) (tel t0) n i H1 Hr Hi) as [_ E].
+    rewrite E, map_map. destruct (fold_min (map (fun x : Z * tensor RN => nth i (tel (snd x)) 0) rest) (nth i (tel t0) 0))
+      as (M & B & F).
+    split; [destruct M as [M|M]; [left; symmetry; exact M|right; exact M]|constructor; auto].
+  - destruct (fold_map2_nth (tmax RN) (map snd rest) (tel t0) n i H1 Hr Hi) as [_ E].
+    rewrite E, map_map. destruct (fold_max (map (fun x : Z * tensor RN => nth i (tel (snd x)) 0) rest) (nth i (tel t0) 0))
+      as (M & B & F).
+    split; [destruct M as [M|M]; [left; symmetry; exact M|right; exact M]|constructor; auto].
+Qed.
